@@ -124,6 +124,20 @@ impl Duration {
     pub const fn from_millis(ms: u64) -> Self {
         Duration { konst: ms / 1000, term: u32::MAX }
     }
+    pub const fn from_mins(m: u64) -> Self {
+        Duration { konst: m * 60, term: u32::MAX }
+    }
+    pub const fn from_hours(h: u64) -> Self {
+        Duration { konst: h * 3600, term: u32::MAX }
+    }
+    pub const fn from_days(d: u64) -> Self {
+        Duration { konst: d * 86400, term: u32::MAX }
+    }
+    pub const ZERO: Duration = Duration { konst: 0, term: u32::MAX };
+    pub const MAX: Duration = Duration { konst: u64::MAX, term: u32::MAX };
+    pub fn is_zero(&self) -> bool {
+        self.secs() == SymU::konst(0)
+    }
     pub fn sym(t: SymU<64>) -> Self {
         Duration { konst: 0, term: t.0 }
     }
